@@ -356,6 +356,19 @@ def extract(work, modules, macos=False, big_arena=False, contracts=None, extra_f
             if "panic!(" in t:
                 wr(rel, insert_panic_hooks(t, rel, log))
 
+    # T7: ghost count of guard constructions (add-only: one call at the start of PatchGuard::new)
+    t = rd("injector_core/common.rs")
+    m = re.search(r"impl\s+PatchGuard\s*\{", t)
+    if m:
+        a, b = fn_span(t[m.end():], "new")
+        seg = t[m.end() + a:m.end() + b]
+        brace = seg.index("{", seg.index(")"))
+        # the body brace is the first `{` after the parameter list and return type
+        k = seg.index("{", seg.rindex("->")) if "->" in seg[:seg.index("{", brace)] else brace
+        seg = seg[:k + 1] + "\n        crate::verif_rt::on_guard_new();" + seg[k + 1:]
+        wr("injector_core/common.rs", t[:m.end() + a] + seg + t[m.end() + b:])
+        log.append({"rule": "T7", "file": "injector_core/common.rs", "fn": "PatchGuard::new", "added": "ghost counter call"})
+
     # T2
     todo = []
     for m in ["verif_rt.rs"] + [x for x in modules if x != "verif_rt.rs"]:
